@@ -376,6 +376,73 @@ def corpus():
       edit(ti, 'TBRiROAS.estimate_pointwise_and_cumulative_effect', lambda n: isinstance(n, ast.Call) and norm(n) == 'delta_metric.ppf(tail_probability)' and isinstance(n._parent, ast.Dict), 'delta_metric.ppf(1 - tail_probability)'))
   add('C18', 'container guard on the upper bound removed', 'bad', 'R4/container',
       delete_stmt(cc, 'EstimatedTimeSeriesWithConfidenceInterval.__init__', lambda n: isinstance(n, ast.If) and "self['upper'] <" in norm(n.test)))
+  # ---- additional benign twins (behaviour-preserving refactors that must stay silent)
+  def rename_local(module, qual, oldn, newn):
+    def apply(root):
+      sx = Src(root, module)
+      fn = sx.func(qual)
+      names = [n for n in ast.walk(fn) if isinstance(n, ast.Name) and n.id == oldn]
+      if not names:
+        raise NA('no local %s' % oldn)
+      for n in sorted(names, key=lambda n: (n.lineno, n.col_offset), reverse=True):
+        sx.replace(n, newn)
+        sx.offs = sx.offs    # offsets before the edited position stay valid because we go backwards
+      sx.save()
+    return apply
+  add('C02', 'benign: local renamed in exhaustive_search (treatment_share)', 'benign', None, rename_local(mm, MMQ + 'exhaustive_search', 'treatment_share', 'trt_share'))
+  add('C03', 'benign: local renamed in exhaustive_search (req_budget)', 'benign', None, rename_local(mm, MMQ + 'exhaustive_search', 'req_budget', 'budget_needed'))
+  add('C04', 'benign: local renamed in exhaustive_search (diag)', 'benign', None, rename_local(mm, MMQ + 'exhaustive_search', 'diag', 'diagnostics'))
+  add('C01', 'benign: greedy tables renamed', 'benign', None, multi(rename_local(mm, MMQ + 'greedy_search', 'group_star_trt', 'best_trt'), rename_local(mm, MMQ + 'greedy_search', 'group_star_ctl', 'best_ctl')))
+  add('C09', 'benign: greedy tables and flag renamed', 'benign', None, multi(rename_local(mm, MMQ + 'greedy_search', 'group_star_ctl', 'best_ctl'), rename_local(mm, MMQ + 'greedy_search', 'needs_matching', 'pending')))
+  add('C13', 'benign: greedy tables renamed', 'benign', None, rename_local(mm, MMQ + 'greedy_search', 'group_star_trt', 'best_trt'))
+  add('C02', 'benign: | written as or in the range helper', 'benign', None,
+      edit(mm, MMQ + '_constraint_not_satisfied', lambda n: isinstance(n, ast.Return), lambda s, n: 'return (parameter_value < constraint_lower) or (parameter_value > constraint_upper)'))
+  add('C02', 'benign: range stop written 1 + hi', 'benign', None, edit(mm, MMQ + 'treatment_group_size_range', lambda n: isinstance(n, ast.Return), lambda s, n: 'return range(n_geos_from, 1 + n_geos_to)'))
+  add('C02', 'benign: geo-ratio filter as chained comparison', 'benign', None,
+      edit(mm, MMQ + '_control_group_size_generator', lambda n: isinstance(n, ast.If) and 'geo_ratio >=' in norm(n.test), lambda s, n: s.replace('geo_ratio >= geo_tol_min and geo_ratio <= geo_tol_max', 'geo_tol_min <= geo_ratio <= geo_tol_max')))
+  add('C14', 'benign: push branches swapped (>= first)', 'benign', None,
+      edit(hd, 'HeapDict.push', lambda n: isinstance(n, ast.If), lambda s, n: 'if len(queue) >= self._size:\n      heapq.heappushpop(queue, item)\n    else:\n      heapq.heappush(queue, item)'))
+  add('C14', 'benign: push then pop when over capacity', 'benign', None,
+      edit(hd, 'HeapDict.push', lambda n: isinstance(n, ast.If), lambda s, n: 'heapq.heappush(queue, item)\n    if len(queue) > self._size:\n      heapq.heappop(queue)'))
+  add('C15', 'benign: shares via means.sum()', 'benign', None, edit(md, 'TBRMMData.__init__', is_assign_to('geo_share'), lambda s, n: 'geo_share = geo_means / geo_means.sum()'))
+  add('C05', 'benign: factors of the impact swapped', 'benign', None, edit(dg, DG + 'estimate_required_impact', is_assign_to('impact'), lambda s, n: 'impact = sigma * term'))
+  add('C05', 'benign: sigma via an intermediate variable', 'benign', None, edit(dg, DG + 'estimate_required_impact', is_assign_to('sigma'),
+                                                                              lambda s, n: 'sd_y = np.std(self.y, ddof=2)\n    sigma = sd_y * np.sqrt(1 - corr ** 2)'))
+  add('C06', 'benign: variance terms added in the other order', 'benign', None, edit(tb, 'TBR.causal_cumulative_distribution', is_assign_to('var_from_params'), lambda s, n: 'var_from_params = one_to_t**2 * var_params'))
+  add('C07', 'benign: rescale written as cost ** -1', 'benign', None, edit(ti, 'TBRiROAS.summary', lambda n: isinstance(n, ast.BinOp) and norm(n) == '1.0 / cost', 'cost ** -1'))
+  add('C08', 'benign: resets moved into an _invalidate() helper', 'benign', None,
+      multi(edit(dg, DG + 'x@setter', is_assign_to('self._corr'), lambda s, n: 'self._invalidate()'),
+            *[delete_stmt(dg, DG + 'x@setter', is_assign_to('self.' + fld)) for fld in ('_required_impact', '_pretestfit', '_aatest', '_bbtest', '_dwtest', '_tests_ok')],
+            edit(dg, DG + 'corr', lambda n: isinstance(n, ast.FunctionDef) and n.name == 'corr',
+                 lambda s, n: s) ,
+            edit(dg, 'TBRMMDiagnostics', lambda n: isinstance(n, ast.FunctionDef) and n.name == '__repr__',
+                 lambda s, n: 'def _invalidate(self):\n    self._corr = None\n    self._required_impact = None\n    self._pretestfit = None\n    self._aatest = None\n    self._bbtest = None\n    self._dwtest = None\n    self._tests_ok = None\n\n  ' + s)))
+  add('C10', 'benign: search_results builds new designs with the constructor', 'benign', None,
+      edit(mm, MMQ + 'search_results', lambda n: isinstance(n, ast.Call) and norm(n.func) == 'dataclasses.replace',
+           lambda s, n: 'TBRMMDesign(d.score, treatment_geos, control_geos, d.diag)'))
+  add('C16', 'benign: guards use `not in df` spelling', 'benign', None, edit(ge, 'GeoEligibility.__init__', lambda n: isinstance(n, ast.Compare) and norm(n) == "'geo' not in df.columns", "not ('geo' in df.columns)"))
+  add('C17', 'benign: validation calls reordered', 'benign', None,
+      multi(edit(dp, 'TBRMMDesignParameters.__post_init__', lambda n: isinstance(n, ast.Expr) and "'n_designs'" in norm(n), lambda s, n: "self._test_value_vs_threshold('n_test', '>=', self._N_TEST_MIN)"),
+            edit(dp, 'TBRMMDesignParameters.__post_init__', lambda n: isinstance(n, ast.Expr) and "'n_test'" in norm(n), lambda s, n: "self._test_value_vs_threshold('n_designs', '>=', 1)", 0)))
+  add('C19', 'benign: mask computed inline', 'benign', None,
+      multi(edit(td, 'TBRDiagnostics.fit', lambda n: isinstance(n, ast.Assign) and norm(n.targets[0]) == 'self._data' and '~ exclude_dates' in norm(n.value).replace('~exclude', '~ exclude'),
+                 lambda s, n: 'self._data = self._data[~ exclude_dates]')))
+  good_sweep = ("one_day = pd.Timedelta(days=1)\n  covered_until = None\n  for window in sorted(periods, key=lambda w: w.first_day):\n    start = window.first_day\n"
+                "    if covered_until is not None and start <= covered_until:\n      start = covered_until + one_day\n"
+                "    days_exclude += pd.date_range(start, window.last_day, freq='D').to_list()\n"
+                "    covered_until = window.last_day if covered_until is None else max(covered_until, window.last_day)")
+  add('C20', 'correct sweep with a monotone marker (no set): must not be a violation', 'nonviolation', None,
+      multi(edit(ut, 'expand_time_windows', lambda n: isinstance(n, ast.For), lambda s, n: good_sweep),
+            edit(ut, 'expand_time_windows', lambda n: isinstance(n, ast.Return), lambda s, n: 'return days_exclude')))
+  add('C20', 'sweep whose marker moves backwards', 'bad', 'R1/dedup',
+      multi(edit(ut, 'expand_time_windows', lambda n: isinstance(n, ast.For), lambda s, n: good_sweep.replace('window.last_day if covered_until is None else max(covered_until, window.last_day)', 'window.last_day')),
+            edit(ut, 'expand_time_windows', lambda n: isinstance(n, ast.Return), lambda s, n: 'return days_exclude')))
+  add('C20', 'benign: accumulate with extend', 'benign', None, edit(ut, 'expand_time_windows', lambda n: isinstance(n, ast.AugAssign), lambda s, n: "days_exclude.extend(pd.date_range(\n        window.first_day, window.last_day, freq='D').to_list())"))
+  add('C11', 'benign: loops over ct and tx swapped', 'benign', None,
+      multi(edit(mm, MMQ + 'count_max_designs', lambda n: isinstance(n, ast.For) and norm(n.target) == 'i_ct', lambda s, n: s.replace('for i_ct in range(1 + n_ct):', 'for i_ct in range(n_ct + 1):', 1))))
+  add('C12', 'benign: comparison operands flipped', 'benign', None, edit(dg, DG + 'corr_test', lambda n: isinstance(n, ast.Compare) and norm(n) == 'corr >= self._par.min_corr', 'self._par.min_corr <= corr'))
+  add('C18', 'benign: crossed bound written with the operands named', 'benign', None,
+      edit(ti, 'TBRiROAS.estimate_pointwise_and_cumulative_effect', lambda n: isinstance(n, ast.BinOp) and norm(n) == 'treat_vec - upper', '-upper + treat_vec'))
   return V
 
 
@@ -409,6 +476,8 @@ def _run_variant(args):
       return (idx, 'fail', 'not flagged (exit %d, %d undecided: %s)' % (code, len(und), '; '.join(u.detail[:80] for u in und[:2])))
     if new:
       return (idx, 'fail', 'benign twin flagged: %s' % '; '.join('%s %s' % (i.rule, i.detail[:100]) for i in new[:2]))
+    if und and kind == 'nonviolation':
+      return (idx, 'ok', 'no violation (undecided, as expected for a shape the rule does not decide)')
     if und:
       return (idx, 'fail', 'benign twin undecided: %s' % '; '.join(u.detail[:100] for u in und[:2]))
     return (idx, 'ok', 'silent')
@@ -451,7 +520,7 @@ def run(prop, root, jobs=16):
   if tasks:
     with ProcessPoolExecutor(min(jobs, len(tasks))) as ex:
       results = list(ex.map(_run_variant, tasks))
-  out = {'variants': len(tasks), 'bad_variants': sum(1 for i, v in mine if v[2] == 'bad'), 'benign_twins': sum(1 for i, v in mine if v[2] == 'benign'),
+  out = {'variants': len(tasks), 'bad_variants': sum(1 for i, v in mine if v[2] == 'bad'), 'benign_twins': sum(1 for i, v in mine if v[2] in ('benign', 'nonviolation')),
          'passed': 0, 'not_applicable': [], 'failed': [], 'details': []}
   for (idx, status, msg) in results:
     name = V[idx][1]
